@@ -89,7 +89,7 @@ def apply(ast, st):
         elif k == "sep":
             s = {"space": " ", "tab": "\t", "spaces": "   "}[st["sep"]]
         elif k == "comma":
-            s = st["comma"].replace("tab", "\t")
+            s = st["comma"].replace("tab", "\t").replace("wide", " " * 70)
         elif k == "sp":
             s = " "
         elif k == "num":
@@ -97,17 +97,17 @@ def apply(ast, st):
         elif k == "lit":
             s = tk[1]
         elif k == "lb":
-            s = "[" + (" " if st["brack"] == "spaced" else "")
+            s = "[" + {"spaced": " ", "wide": " " * 45}.get(st["brack"], "")
             inb = True
         elif k == "rb":
-            s = (" " if st["brack"] == "spaced" else "") + "]"
+            s = {"spaced": " ", "wide": " " * 45}.get(st["brack"], "") + "]"
             inb = False
         elif k == "op":
-            s = {"tight": tk[1], "spaced": " " + tk[1] + " ", "uneven": " " + tk[1]}[st["brack"]]
+            s = {"tight": tk[1], "spaced": " " + tk[1] + " ", "uneven": " " + tk[1], "wide": " " * 20 + tk[1] + " " * 20}[st["brack"]]
         elif k == "star":
-            s = {"tight": "*", "spaced": " * ", "uneven": "*"}[st["brack"]]
+            s = {"tight": "*", "spaced": " * ", "uneven": "*", "wide": " " * 15 + "*" + " " * 15}[st["brack"]]
         out.append(s)
-    text = st["indent"].replace("tab", "\t") + "".join(out) + st["trail"].replace("tab", "\t")
+    text = st["indent"].replace("tab", "\t").replace("wide", " " * 120) + "".join(out) + st["trail"].replace("tab", "\t").replace("wide", " " * 105)
     eol = {"none": "", "lf": "\n", "crlf": "\r\n"}[st["eol"]]
     return text + eol
 
